@@ -230,6 +230,13 @@ def extra_programs():
                           {"name": "F2", "module": "main", "params": [], "body": [ka("/o/w", "W", "3"), ka("/o/a", "A", "5")]},
                           {"name": "root", "module": "main", "params": [], "body": [c("F1"), c("F2")]}],
                 "entries": {"eval_root": {"kind": "eval", "fn": "root"}}})
+    # paths with characters that mean something in the dot language (a colon separates a node from a port)
+    f2 = {"name": "F2", "module": "main", "params": [], "body": [{"k": "keep", "path": "/t/x:a", "fn": "F", "args": []}]}
+    out.append({"id": "G/colon_paths", "key": "colon_paths", "modules": ["main"], "vars": [], "eps": [],
+                "funcs": [f, f2, {"name": "root", "module": "main", "params": [], "body": [
+                    {"k": "keep", "path": "/t/x:c", "fn": "F2", "args": []}, {"k": "keep", "path": "/t/y z", "fn": "F3", "args": []}]},
+                          {"name": "F3", "module": "main", "params": [], "body": []}],
+                "entries": {"eval_root": {"kind": "eval", "fn": "root"}}})
     # a keep with a run-time argument whose function loads the path kept by an earlier sibling (no solid edge between the two)
     for nm, first in (("rt_sibling_loads_earlier_keep", {"k": "keep", "path": "/r/a", "fn": "F", "args": []}),
                       ("rt_sibling_loads_earlier_datafn", c("A"))):
